@@ -725,7 +725,11 @@ class C02(Check):
             self.violated("R7", MOD, q, "evaluation-follows-order", cc,
                           f"no loop `for name in {order_var}` evaluating the components in sorted order was found")
         else:
-            simple = len(ev.body) == 1 and isinstance(ev.body[0], ast.Expr) and not ev.orelse
+            # the evaluation is the unconditional first statement of every iteration (later statements may classify the name)
+            first_ = ev.body[0]
+            simple = isinstance(first_, ast.Expr) and isinstance(first_.value, ast.Call) and isinstance(first_.value.func, ast.Attribute) \
+                and first_.value.func.attr == "calculate_inpl" and first_.value.args and norm(first_.value.args[0]) == norm(ev.target) and not ev.orelse \
+                and sum(1 for x in ast.walk(ev) if isinstance(x, ast.Call) and isinstance(x.func, ast.Attribute) and x.func.attr == "calculate_inpl") == 1
             if simple:
                 self.holds("R7", MOD, q, "evaluation-follows-order", ev, f"`{norm(ev.body[0])}` for every name in {order_var}, in order")
             else:
